@@ -4,6 +4,11 @@ manifest is valid at every commit)."""
 import json, os, sys
 
 CHECKS = {
+ "C05": ("fault_enumeration",
+         "exhaustive fault-point enumeration (every cut byte x FIN/RST/stall x every hop, trickle, connection-stage faults) over a response corpus on the real fetch path with virtual-time connections",
+         "9 exchanges (single responses, a 3-hop redirect chain, webfinger, pub.New on an actor with outbox); every byte offset of every response as a cut with FIN, with RST and as a stall, trickle from 3 offsets, refused and stalled connections, at every hop (5 739 fault runs quick; thorough cuts the 4 kB response at every byte too): the call returns, no panic, no hang (a stalled read must meet an armed deadline), virtual time <= 5 x timeout per connection, and no document unless the whole JSON object was delivered.",
+         "Env-B: in-memory connections with a virtual clock (rt/verifrt/net.go) model net.Conn deadlines; real-socket timing is not measured here. Handshake stalls are modelled as connection stalls covered by the dialer timeout.",
+         "DESIGN.md §3 C05"),
  "C03": ("model_checking",
          "full product of a response grammar against a three-valued reference classifier; redirect-graph enumeration; explicit-state search over fetch histories and cache sizes on the real jtp.Get",
          "257 855 response exchanges (quick; status-line atoms x all header sequences of length <=2 over 23 atoms incl. confusable header names x 14 bodies x 2 tolerated sets; thorough adds length-3 header sequences and all bodies for every status), chains of every length around budgets 0..3 (jtp.Get) and 20 (client.FetchURL) in 5 Location styles, cycles, 7 kinds of bad hop at each position, and a breadth-first search over fetch histories (10 URLs, depth 4/5, cache sizes 1,2,3,128; state = real cache contents) where every fetch is compared with the cold result; request counts per fetch are bounded by the budget.",
